@@ -91,6 +91,34 @@ def run(ctx):
                           "model": [str(x)[:60] for x in mu]})
         elif len(samples) < 6:
             samples.append({"direction": "reference->psec and ->model", "key_block": kb[:80] + "..."})
+    # ---- one reused KeyBlock whose header version is switched between wraps (a 16/24-byte KBPK serves A, B, C and D):
+    #      every block it emits must be opened by the independent reference, and blocks of the reference by it
+    for ks in (16, 24):
+        for order in ("BDCB", "DBAD", "ABD", "DCB"):
+            kbpk = rng.randbytes(ks)
+            kb = tr31.KeyBlock(kbpk)
+            key = rng.randbytes(16)
+            for v in order:
+                evals += 1
+                try:
+                    kb.header.load(v + "0000P0TE00N0000")
+                    s_ = kb.wrap(key)
+                    f, blks, k2 = o.tr31_unwrap(kbpk, s_)
+                    ok = k2 == key
+                except Exception as e:  # noqa: BLE001
+                    ok, s_ = False, repr(e)
+                if not ok:
+                    viol.append({"what": "a reused KeyBlock (version switched to %s in sequence %s) emitted a block the independent implementation cannot open" % (v, order),
+                                 "input": {"kbpk": kbpk.hex(), "sequence": order, "key": key.hex()}, "expected": "opens to the key", "observed": str(s_)[:100]})
+                ref = o.tr31_wrap(kbpk, {"version_id": v, "key_usage": "P0", "algorithm": "T", "mode_of_use": "E", "version_num": "00",
+                                         "exportability": "N", "reserved": "00"}, [], key, rng.randbytes((-(2 + 16)) % o.TR31_BS[v] or o.TR31_BS[v]))
+                try:
+                    got = kb.unwrap(ref)
+                except Exception as e:  # noqa: BLE001
+                    got = repr(e)
+                if got != key:
+                    viol.append({"what": "a reused KeyBlock (after other versions) cannot unwrap a valid reference block of version " + v,
+                                 "input": {"kbpk": kbpk.hex(), "sequence": order, "key_block": ref}, "expected": key.hex(), "observed": str(got)[:100]})
     # ---- the reference itself: CMAC of `cryptography` vs the published RFC 4493 vector (oracle sanity)
     k = bytes.fromhex("2b7e151628aed2a6abf7158809cf4f3c")
     if o.cmac("aes", k, b"").hex() != "bb1d6929e95937287fa37d129b756746":
